@@ -51,6 +51,7 @@ def run(chk):
     fx = chk.facts(units)
     C03.run_lostupdate(chk, fx, "C04")
     C03.run_itemused(chk, fx, "C04")
+    C03.run_records(chk, fx, "C04")
     fh = chk.facts(["opm/input/eclipse/Schedule/Schedule.cpp"], files_re="^/repo/opm/input/eclipse/Schedule/", fn_re="^$")
     for q, r in fh.recs.items():
         fx.recs.setdefault(q, r)
